@@ -94,6 +94,7 @@ func msgSliceFrom(v ssa.Value, newMsg, readMPUB *ssa.Function, depth int) bool {
 	seen := map[ssa.Value]bool{}
 	var walk func(v ssa.Value) bool
 	walk = func(v ssa.Value) bool {
+		v = an.Strip(v)
 		if seen[v] {
 			return true
 		}
@@ -394,6 +395,7 @@ func chansWhole(v ssa.Value) (ok bool, why string) {
 	seen := map[ssa.Value]bool{}
 	var walk func(v ssa.Value) bool
 	walk = func(v ssa.Value) bool {
+		v = an.Strip(v)
 		if seen[v] {
 			return true
 		}
